@@ -35,7 +35,7 @@ Print Assumptions rejected_size_line_raises.
    makes one more read after its loop, so that the decoder reports an incomplete stream *)
 Theorem source_facts :
   Gen_Read.enforce_content_length_default = Some true /\ Gen_Read.raw_read_enforces_length = Some true /\
-  Gen_Read.stream_flushes_after_loop = Some true.
+  Gen_Read.stream_flushes_after_loop = Some true /\ Gen_Read.multidecoder_flushes_all = Some true.
 Proof. repeat split; reflexivity. Qed.
 Print Assumptions source_facts.
 
